@@ -154,6 +154,18 @@ CHECKS = {
         ref="DESIGN.md 6/C11",
         note=NOTE + "refine_ model hand-written, tied by exact differential comparison (CSR edge order re-implemented).",
         technique="Lean 4 proof (ring identities per parent triangle, half-edge counting by induction) tied by exact differential driver"),
+    "C14": dict(
+        text="Theorems over all text files the model's writers produce (no bound on mesh size): write_vtk followed by read_vtk returns the "
+             "written coordinate tokens and the connectivity (values, order, winding) for triangle and tetra meshes; reading with the other "
+             "mesh kind fails; every strict line-prefix of a written VTK file fails; OFF, VTK triangle-strip and Gmsh-2 files laid out by "
+             "their format definitions load to the described mesh with zero-based indices (strips: alternating winding); write_ev/read_ev "
+             "round-trip every field, eigenvalue list and (n,k) eigenvector block incl. k=1, n=1; write_vfunc/read_vfunc round-trip. Numbers "
+             "are decimal tokens (str/float round trip is a model parameter). Readers and writers are compared with the implementation "
+             "byte-for-byte (written files) and value-for-value (parsed meshes, errors mapped to an enum) on generated meshes, dtypes, "
+             "field subsets, every line-prefix truncation; FreeSurfer binary files are compared as an implementation round trip only.",
+        ref="DESIGN.md 6/C14",
+        note=NOTE + "format model hand-written, tied by exact differential comparison; FreeSurfer binary layout, float32 rounding of np.fromfile and OS errors not modelled.",
+        technique="Lean 4 proof (token/line-level parser-printer round trips by induction over rows and fuel) tied by exact differential driver"),
     "C15": dict(
         text="Theorems for every mesh and every (multi-column, rectangular) function: map_tfunc_to_vfunc conserves column totals, the weighted "
              "variant integrates against triangle areas and maps 1 to vertex_areas; map_vfunc_to_tfunc is the corner mean and maps constants "
